@@ -79,6 +79,17 @@ pub fn ins_calls(kv: &Kv) -> Vec<Call> {
 pub fn add_calls(keys: &[Vec<u8>]) -> Vec<Call> {
     keys.iter().map(|k| Call::Add(k.clone())).collect()
 }
+/// set-builder calls with repeated keys (a repeat is a no-op): the empty key and every third key twice
+pub fn add_calls_rep(keys: &[Vec<u8>]) -> Vec<Call> {
+    let mut v = vec![];
+    for (i, k) in keys.iter().enumerate() {
+        v.push(Call::Add(k.clone()));
+        if k.is_empty() || i % 3 == 1 {
+            v.push(Call::Add(k.clone()));
+        }
+    }
+    v
+}
 
 pub fn build_line(fe: &str, ty: u64, geom: &str, mode: &str, calls: &[Call]) -> String {
     format!("build {} {} {} {} {}", fe, ty, geom, mode, show_calls(calls))
@@ -178,6 +189,19 @@ pub fn key_sets(g: &mut G) -> Vec<(String, Vec<Vec<u8>>)> {
                 }
             }
         }
+    }
+    // the same wide node recurring under several prefixes, after a small subtree
+    // (cache cells already occupied when the wide node is first compiled)
+    for &n in &[33usize, 40, 256] {
+        let mut keys: Vec<Vec<u8>> = vec![b"!x".to_vec(), b"!yz".to_vec()];
+        let bytes = fanout_keys(n, false, false, false);
+        for p in [b'a', b'b', b'c'] {
+            for b in &bytes {
+                keys.push(vec![p, b[0]]);
+            }
+        }
+        keys.sort();
+        sets.push((format!("widerec{}", n), keys));
     }
     // random structured
     let nrand = if g.thorough { 60 } else { 12 };
